@@ -232,15 +232,24 @@ type findingsFile struct {
 }
 
 func loadFindings() []Finding {
-	b, err := os.ReadFile(filepath.Join(Root, "known_findings.json"))
-	if err != nil {
-		return nil
+	var all []Finding
+	files := []string{filepath.Join(Root, "known_findings.json")}
+	more, _ := filepath.Glob(filepath.Join(Root, "known_findings.d", "*.json"))
+	sort.Strings(more)
+	files = append(files, more...)
+	for _, fn := range files {
+		b, err := os.ReadFile(fn)
+		if err != nil {
+			continue
+		}
+		var f findingsFile
+		if json.Unmarshal(b, &f) != nil {
+			fmt.Fprintf(os.Stderr, "kcheck: cannot parse %s\n", fn)
+			continue
+		}
+		all = append(all, f.Findings...)
 	}
-	var f findingsFile
-	if json.Unmarshal(b, &f) != nil {
-		return nil
-	}
-	return f.Findings
+	return all
 }
 
 // ---------------------------------------------------------------------------------------------
